@@ -10,7 +10,7 @@ from hypothesis import strategies as st
 TWO_PI = 2 * math.pi
 # VirtualDevice(max_abs_detuning set, max_amp None) fails in its spec text
 # (C12 finding); history generators avoid it while it is unfixed.
-AVOID_SPEC_TEXT_BUG = True
+AVOID_SPEC_TEXT_BUG = False
 # properties about finite samples (C01, C16) switch this on in their own process
 DEGENERATE_WF = False
 PROTOCOLS = ["min-delay", "no-delay", "wait-for-all"]
